@@ -265,7 +265,7 @@ def main():
                     smsg = tiling_violation(small, stoks)
                 except Exception as e:
                     stoks, smsg = None, "scan raised %s" % type(e).__name__
-                h = {"what": msg, "kind": kind(msg), "min_tokens": stoks[:8] if stoks else stoks, "min_what": smsg}
+                h = {"what": msg, "kind": kind(msg), "min_kind": kind(smsg) if smsg else None, "min_tokens": stoks[:8] if stoks else stoks, "min_what": smsg}
                 if len(text) > LONG:
                     if seg_text(segs) != text:      # coarse_segs already shrank it
                         segs = [[text, len(text)]]
